@@ -516,7 +516,28 @@ func c41TickerAlphabet(c *core.Ctx) {
 		if !rejects || core.InnermostLoop(fn, ifi.Block()) == nil {
 			return
 		}
-		for _, d := range core.Disjuncts(ifi.Cond) {
+		// `if a || b { continue }; return false` lowers to a chain of tests, the last of which rejects: the
+		// tests before it (each falling through to the next when false, accepting when true) are disjuncts too
+		disj := core.Disjuncts(ifi.Cond)
+		for b := ifi.Block(); len(b.Preds) == 1; {
+			p := b.Preds[0]
+			pif, isIf := p.Instrs[len(p.Instrs)-1].(*ssa.If)
+			if !isIf || p.Succs[1] != b || core.InnermostLoop(fn, p) == nil {
+				break
+			}
+			rejectsOnTrue := false
+			if r, isR := p.Succs[0].Instrs[len(p.Succs[0].Instrs)-1].(*ssa.Return); isR {
+				if bv, isC := core.ConstBool(r.Results[0]); isC && !bv {
+					rejectsOnTrue = true
+				}
+			}
+			if rejectsOnTrue {
+				break
+			}
+			disj = append(disj, core.Disjuncts(pif.Cond)...)
+			b = p
+		}
+		for _, d := range disj {
 			cj := core.Conjuncts(d)
 			var lo, hi []int64
 			var ch ssa.Value
